@@ -1,0 +1,12 @@
+//go:build verif
+
+package pause
+
+// VerifReset replaces the shared manager with a fresh one (between harness scenarios).
+func VerifReset() { manager = &pauseManager{} }
+
+// VerifSubscribers returns the number of currently subscribed workers.
+func VerifSubscribers() (n int) {
+	manager.subscribers.Range(func(_, _ interface{}) bool { n++; return true })
+	return n
+}
